@@ -6,6 +6,7 @@ package pfcpiface
 
 import (
 	"encoding/binary"
+	"fmt"
 	"net"
 	"strconv"
 	"strings"
@@ -96,6 +97,15 @@ func int2ip(nn uint32) net.IP {
 	binary.BigEndian.PutUint32(ip, nn)
 
 	return ip
+}
+
+// recoverMalformedIE turns a panic raised by a go-pfcp accessor into an error.
+// go-pfcp slices the payload of some IEs (SDF Filter, PFD Contents) by their inner
+// length fields without checking them against the payload size.
+func recoverMalformedIE(err *error) {
+	if r := recover(); r != nil {
+		*err = fmt.Errorf("malformed IE: %v", r)
+	}
 }
 
 func maxUint64(x, y uint64) uint64 {
